@@ -82,7 +82,8 @@ pub fn eval(op: &str, a: &[&str]) -> String {
 		}
 		"bb.grid" => {
 			let b = pb(a[0]);
-			out_of(guarded(|| b.iter_bbox_grid(n(1)).map(|c| fb(&c)).collect::<Vec<_>>().join(";")), |s| format!("ok:{s}"))
+			// (at most 64 x 64 cells are expected; an implementation that yields far more is cut off - the line differs from the model's anyway)
+			out_of(guarded(|| b.iter_bbox_grid(n(1)).take(10_000).map(|c| fb(&c)).collect::<Vec<_>>().join(";")), |s| format!("ok:{s}"))
 		}
 		"bb.index" => res(guarded(|| pb(a[0]).get_tile_index2(&TileCoord2::new(n(1), n(2)))), |i| i.to_string()),
 		"bb.index3" => res(guarded(|| {
@@ -219,7 +220,7 @@ fn spec_unary(b: &TileBBox, grid_sizes: &[u32], v: &mut Vec<SpecV>) {
 		Err(m) => v.push(SpecV { kind: "iter_coords-panic", input: format!("bb.coords {s}"), detail: m }),
 	}
 	for &g in grid_sizes {
-		match guarded(|| b.iter_bbox_grid(g).collect::<Vec<_>>()) {
+		match guarded(|| b.iter_bbox_grid(g).take(100_000).collect::<Vec<_>>()) {
 			Ok(cells) => {
 				if g == 0 { if !cells.is_empty() { v.push(SpecV { kind: "grid", input: format!("bb.grid {s} 0"), detail: "size 0 must give no cells".into() }); } continue; }
 				let mut cover = vec![0u32; n * n];
